@@ -56,7 +56,7 @@ var metaTable = map[string]propMeta{
 			return strings.HasPrefix(fp, "allocate/") || strings.HasPrefix(fp, "refresh/") || strings.HasPrefix(fp, "probe-expiry/alloc") || strings.Contains(fp, "alloc-dead")
 		}},
 	"C07": {Level: "exploration", Assumptions: commonAssumptions,
-		Rule: histRule + "permission/channel install and refresh fingerprints, expiry probes of permissions and channels, and data-plane verdicts that depend on their liveness",
+		Rule: histRule + "allocation lifetimes of 90 s / 400 s / 3599 s with frequent refreshes (a permission or channel must survive its allocation being refreshed), permission/channel install and refresh fingerprints, expiry probes of permissions and channels, and data-plane verdicts that depend on their liveness",
 		NonTrivial: func(fp string) bool {
 			return strings.HasPrefix(fp, "createperm/") || strings.HasPrefix(fp, "chanbind/") || strings.HasPrefix(fp, "probe-expiry/") || strings.Contains(fp, "perm-") || strings.Contains(fp, "chan-")
 		}},
@@ -92,6 +92,7 @@ func init() {
 	metaTable["C04"] = propMeta{Level: "exploration", Assumptions: append(append([]string{}, commonAssumptions...), "linearizability is checked with porcupine v1.3.0 on histories of at most ~50 operations; a checker timeout is counted as unknown, never as a verdict"),
 		Rule: "4 of 5 cases: random histories with 3-8 clients sharing IPs/users/peers/channel numbers, half of the worlds with the same client address on two listeners; every emission is attributed to the submitting 5-tuple by the conservation monitor and a snapshot-diff monitor asserts that a request changes only the requester's allocation; ; a few cases per run use operating-system loopback sockets: a real Server behind one UDP listener, clients on different loopback addresses (the second on the first one's source port), another client speaking last before each relayed datagram, which must come out at its owner and nowhere else" +
 			"1 of 5 cases: 6-12 TCP clients (one server goroutine each) issue Allocate/Refresh(0)/Refresh concurrently while AllocationCount is polled, and the recorded history is checked for linearizability against a sequential set model; " +
+			"every 50th case: two real clients with RFC 6062 allocations behind one of the bundled relay address generators dial out one after the other - each peer sees the connection coming from that client's own relayed address; " +
 			"non-trivial = distinct cross-effect fingerprints (operation x number of other allocations present), cross-client data-plane reason classes, and burst fingerprints (clients x whether operations really overlapped)",
 		NonTrivial: func(fp string) bool {
 			return strings.HasPrefix(fp, "crossfx/") || strings.HasPrefix(fp, "burst/") || strings.Contains(fp, "otherclient") || strings.HasPrefix(fp, "allocate/on-live")
@@ -203,6 +204,7 @@ func init() {
 		"a client that pipelines application data behind ConnectionBind before its success response is outside RFC 6062 and not generated"),
 		Rule: "1-3 TCP allocations on TCP control connections; random sequences of Connect (listening peer / nobody listening / duplicate), inbound peer connections from permitted and unpermitted IPs, ConnectionBind on fresh data connections (right, wrong id, wrong user, repeated; at <=29 s and >=31 s), byte streams of 0..64 KiB both ways under random segmentation, closes from either side, jumps to 29 s / 31 s after creation; after duplicate Connect, ConnectionBind and close steps the manager locks must be free (hook) and an authenticated Refresh must be answered; ; the real-client cases draw the relay sockets from the harness' ledger generator or from pion/turn's own Static / PortRange / None generators (over the simulated transport.Net) and compare the address the peer sees with the relayed address; peers send a greeting before the client has bound the data connection (it must be the first bytes read); every 25th case: another client's allocation reaches its lifetime while a Connect dials a peer that takes 20 s; unpermitted inbound connections preferably come from hosts the allocation connected to; bound pairs stay in use for 10-21 minutes with the allocation refreshed; peers that refused connections start listening later; Connect on a second control connection of the same user that holds no allocation; in half of the slow-Connect cases the Connect's own allocation expires during the dial" +
 			"one pipe step in three stalls the receiving side for 7/12/40 s behind a 4 KiB window while 20-200 kB are sent to it: everything arrives afterwards, the pair stays open; " +
+			"every other raw case hands the server bare net.Conn values (no ReadFrom/WriteTo: the relay's copy loops use their own buffers); every other real-client case a second client has allocated and dialled out through the same generator before; " +
 			"oracle: model of peer connections (id, peer, age, bound) + byte-for-byte stream comparison at quiescent points; non-trivial = distinct (operation, situation, response code) fingerprints",
 		NonTrivial: func(fp string) bool { return true },
 	}
@@ -235,7 +237,7 @@ func init() {
 		"the random source is scripted (always 0, always n-1, n/2, fixed sequences, PRNG); go1.26.8 -race build of /repo's working tree",
 	},
 		Rule: "per case one generator (port-range / static / pass-through) on IPv4 or IPv6 with (MinPort,MaxPort) drawn from boundary values {1,2,1023,1024,32767,32768,49152,65534,65535}, random pairs, single-port and tiny ranges, MaxRetries in {1,2,10,default}; 10-40 steps of allocate (UDP or TCP, with no / a free / an occupied requested port), close, and outsiders occupying ports of the range; every (conn, advertised address, error) is checked: advertised IP and port, range membership, requested port honoured, no port handed out twice, errors only when binding was impossible, Intn argument = range size, clean failure when the whole range is bound; ; every 10th case runs a generator over operating-system loopback sockets (udp4/tcp4/udp6/tcp6): after one allocation is live, asking for its port again (or, single-port range, for any port) must not produce a second socket on it - socket options such as SO_REUSEPORT only mean something there" +
-			"every 10th case puts the port-range generator (range of 1-7 ports) behind a running server: plain, EVEN-PORT (with and without the reserve bit) and TCP Allocates must be given the configured relay IP, a port inside the range (even when EVEN-PORT was asked for) and never a port a live allocation of the same transport holds; a refusal while every port of the range is free is a violation (also for the bare generator, ranges up to 4096 ports); non-trivial = distinct (generator, network, requested?, outcome, single-port?, max=65535?) fingerprints",
+			"every 10th case puts the port-range generator (range of 1-7 ports) behind a running server: plain, EVEN-PORT (with and without the reserve bit) and TCP Allocates must be given the configured relay IP, a port inside the range (even when EVEN-PORT was asked for) and never a port a live allocation of the same transport holds; a refusal while every port of the range is free is a violation (also for the bare generator, ranges up to 4096 ports), every other such case gives the TCP listener a generator of its own (another relay address and range) that its clients' allocations must come from; non-trivial = distinct (generator, network, requested?, outcome, single-port?, max=65535?) fingerprints",
 		NonTrivial: func(fp string) bool { return true },
 	}
 }
